@@ -461,6 +461,9 @@ func boolSimplify(t *Term) *Term {
 	}
 	switch t.Op {
 	case "&&", "||":
+		if len(t.A) != 2 {
+			return t
+		}
 		a, b := boolSimplify(t.A[0]), boolSimplify(t.A[1])
 		unit, zero := "#true", "#false"
 		if t.Op == "||" {
@@ -555,6 +558,11 @@ func normFact(f Fact) Fact {
 			f.Neg = !f.Neg
 		}
 	}
+	// s == "" on strings
+	if t.Op == "==" && len(t.A) == 2 && t.A[1].IsAt(`#""`) {
+		t = mk("nonempty", t.A[0])
+		f.Neg = !f.Neg
+	}
 	// x.Empty() on Coins / AccAddress
 	if (t.Op == "sdk.Coins.Empty" || t.Op == "sdk.AccAddress.Empty") && len(t.A) == 1 {
 		t = mk("nonempty", t.A[0])
@@ -564,10 +572,60 @@ func normFact(f Fact) Fact {
 		t = t.A[0]
 		f.Neg = !f.Neg
 	}
-	if (t.Op == "&&" || t.Op == "||") && len(t.A) == 2 {
-		t = mk(t.Op, normTerm(t.A[0]), normTerm(t.A[1]))
+	if (t.Op == "&&" || t.Op == "||") && len(t.A) >= 2 {
+		// negation normal form with flattened, sorted operands: ¬(A ∧ B) and (¬A ∨ ¬B) are one fact
+		op := t.Op
+		neg := f.Neg
+		if neg {
+			if op == "&&" {
+				op = "||"
+			} else {
+				op = "&&"
+			}
+		}
+		var parts []*Term
+		var collect func(x *Term, negate bool)
+		collect = func(x *Term, negate bool) {
+			for x.Op == "!" && len(x.A) == 1 {
+				x = x.A[0]
+				negate = !negate
+			}
+			src := t.Op
+			if (x.Op == "&&" || x.Op == "||") && ((x.Op == src) != (negate != neg)) {
+				// same connective after pushing the negation: flatten
+				for _, a := range x.A {
+					collect(a, negate)
+				}
+				return
+			}
+			nf := normFact(Fact{T: x, Neg: negate})
+			if nf.Neg {
+				parts = append(parts, mk("!", nf.T))
+			} else {
+				parts = append(parts, nf.T)
+			}
+		}
+		for _, a := range t.A {
+			collect(a, neg)
+		}
+		sort.Slice(parts, func(i, j int) bool { return parts[i].String() < parts[j].String() })
+		t = &Term{Op: op, A: parts}
+		f.Neg = false
 	}
 	return Fact{t, f.Neg}
+}
+
+// Disjuncts returns the operand fact strings of a disjunction fact (nil otherwise).
+func (f Fact) Disjuncts() []string {
+	if f.Neg || f.T.Op != "||" {
+		return nil
+	}
+	var out []string
+	for _, a := range f.T.A {
+		out = append(out, a.String())
+	}
+	sort.Strings(out)
+	return out
 }
 
 // normTerm normalises a boolean sub-term (the term form of normFact).
@@ -581,8 +639,12 @@ func normTerm(t *Term) *Term {
 
 // conjuncts flattens a normalised conjunction into fact strings.
 func conjuncts(t *Term) []string {
-	if t.Op == "&&" && len(t.A) == 2 {
-		return append(conjuncts(t.A[0]), conjuncts(t.A[1])...)
+	if t.Op == "&&" {
+		var out []string
+		for _, a := range t.A {
+			out = append(out, conjuncts(a)...)
+		}
+		return out
 	}
 	return []string{t.String()}
 }
@@ -622,10 +684,12 @@ func condFacts(t *Term, val bool) []Fact {
 	switch {
 	case t.Op == "!" && len(t.A) == 1:
 		return condFacts(t.A[0], !val)
-	case t.Op == "&&" && val:
-		return append(condFacts(t.A[0], true), condFacts(t.A[1], true)...)
-	case t.Op == "||" && !val:
-		return append(condFacts(t.A[0], false), condFacts(t.A[1], false)...)
+	case (t.Op == "&&" && val) || (t.Op == "||" && !val):
+		var out []Fact
+		for _, a := range t.A {
+			out = append(out, condFacts(a, val)...)
+		}
+		return out
 	}
 	return []Fact{normFact(Fact{t, !val})}
 }
@@ -693,17 +757,31 @@ func (s FactSet) Holds(t *Term, val bool) bool {
 	if s.Has(normFact(Fact{T: t, Neg: !val})) {
 		return true
 	}
-	if t.Op == "&&" && val {
-		return s.Holds(t.A[0], true) && s.Holds(t.A[1], true)
+	all := func(v bool) bool {
+		for _, a := range t.A {
+			if !s.Holds(a, v) {
+				return false
+			}
+		}
+		return len(t.A) > 0
 	}
-	if t.Op == "||" && !val {
-		return s.Holds(t.A[0], false) && s.Holds(t.A[1], false)
+	any := func(v bool) bool {
+		for _, a := range t.A {
+			if s.Holds(a, v) {
+				return true
+			}
+		}
+		return false
 	}
-	if t.Op == "&&" && !val {
-		return s.Holds(t.A[0], false) || s.Holds(t.A[1], false)
-	}
-	if t.Op == "||" && val {
-		return s.Holds(t.A[0], true) || s.Holds(t.A[1], true)
+	switch {
+	case t.Op == "&&" && val:
+		return all(true)
+	case t.Op == "||" && !val:
+		return all(false)
+	case t.Op == "&&" && !val:
+		return any(false)
+	case t.Op == "||" && val:
+		return any(true)
 	}
 	return false
 }
